@@ -408,5 +408,7 @@ package hackpadfs
 //@ func errUnderName(err error, name string) (r error)
 //@   props C05 C08
 //@   ensures "under-name" [C05] underName(r, err, name)
+//@   ensures "sentinels-match-the-os-error-classes" [C05] errIs(syscall.EINVAL, ErrInvalid) && errIs(syscall.ENOENT, ErrNotExist) && errIs(syscall.EEXIST, ErrExist) && errIs(syscall.EISDIR, ErrIsDir) &&
+//@                     errIs(syscall.ENOTDIR, ErrNotDir) && errIs(syscall.ENOTEMPTY, ErrNotEmpty) && errIs(syscall.ENOSYS, ErrNotImplemented) && errIs(syscall.EACCES, ErrPermission) && errIs(syscall.EPERM, ErrPermission)   // the package's sentinels are the classes the operating system's errors fall into (errors.Is on the real errno values): a property of the variable initialisers in errors.go, stated here because every error-translating helper relies on it
 //@   pure
 //@   nopanic
